@@ -200,8 +200,26 @@ fn analyze_used_function_names_and_type_names(
 pub(super) fn optimize_lir_sources_by_eliminating_unused_ones(
   Sources { symbol_table, global_variables, type_definitions, main_function_names, functions }: Sources,
 ) -> Sources {
-  let (used_str_names, used_fn_names, used_types) =
+  let (used_str_names, used_fn_names, mut used_types) =
     analyze_used_function_names_and_type_names(&functions, &main_function_names);
+  // A kept type definition keeps the types its fields and its parent mention, even if no
+  // function mentions them (e.g. Map<Int, int> is used, but no Int is ever constructed).
+  loop {
+    let mut referenced = HashSet::new();
+    for type_definition in type_definitions.iter().filter(|it| used_types.contains(&it.name)) {
+      for t in &type_definition.mappings {
+        collect_for_type_set(t, &mut referenced);
+      }
+      if let Some(parent_type) = type_definition.parent_type {
+        referenced.insert(parent_type);
+      }
+    }
+    let size_before = used_types.len();
+    used_types.extend(referenced);
+    if used_types.len() == size_before {
+      break;
+    }
+  }
   Sources {
     symbol_table,
     global_variables: global_variables
